@@ -112,6 +112,22 @@ def _main(args) -> int:
     for path, want in reg_hits:
         print("violation: %s (a repaired defect is back: regression replay reproduces)" % want)
         print("VIOLATION property=%s replay=%s" % (prop, path))
+    # ---- listed (open) findings are exercised on every run through their own replay: the
+    # KNOWN-FINDING line does not depend on the random workload happening to hit them
+    import re as _re
+
+    open_hits = {}
+    for kf in load_known():
+        if kf.get("property") != prop or kf.get("status") != "open" or not kf.get("replay"):
+            continue
+        _, _, got = impl.replay(prop, os.path.join(VERIF, kf["replay"]))
+        pat = kf.get("signature_regex") or ("^" + _re.escape(kf.get("signature", "")) + "$")
+        n_hit = sum(1 for g in got if _re.search(pat, g))
+        open_hits[kf.get("id") or kf.get("signature")] = n_hit
+        if n_hit:
+            print("KNOWN-FINDING: property=%s %s (its replay %s reproduces: %d operation(s))" % (prop, kf.get("what", ""), kf["replay"], n_hit))
+        else:
+            print("note: listed finding %s no longer reproduces with %s (the entry can be marked fixed)" % (kf.get("id"), kf["replay"]))
     sys.stdout.flush()
     ctx = impl.new_context(prop, args.tier)
     stop = {"flag": False}
@@ -177,13 +193,17 @@ def _main(args) -> int:
         merged[key] = (k, merged.get(key, (k, 0))[1] + cnt)
     listed = list(merged.values())
     for k, cnt in listed:
-        print("KNOWN-FINDING: property=%s %s (signature %s, %d occurrence(s) this run)" % (prop, k.get("what", ""), k.get("signature"), cnt))
+        if open_hits.get(k.get("id") or k.get("signature")):
+            print("(listed finding %s also met %d time(s) by the seeded workload)" % (k.get("id") or k.get("signature"), cnt))
+        else:
+            print("KNOWN-FINDING: property=%s %s (signature %s, %d occurrence(s) this run)" % (prop, k.get("what", ""), k.get("signature"), cnt))
     for sig, v, path, cnt in new:
         print("violation: %s  op=%s#%s phase=%s seed=%s x%d  %s" % (sig, v.get("op"), v.get("op_index"), v.get("phase"), (v.get("plan") or {}).get("seed"), cnt, (v.get("detail") or v.get("msg") or "")[:200]))
         print("VIOLATION property=%s replay=%s" % (prop, path))
 
     wall = time.monotonic() - t0
-    ev = impl.evidence(prop, args.tier, base, done, selftest, wall, t_runs, len(new), [k.get("signature") for k, _ in listed], args.jobs)
+    seen_known = sorted(set([k.get("id") or k.get("signature") for k, _ in listed] + [i for i, n_ in open_hits.items() if n_]))
+    ev = impl.evidence(prop, args.tier, base, done, selftest, wall, t_runs, len(new), seen_known, args.jobs)
     if hasattr(ctx, "stats"):
         ev["coverage"]["goldens"] = dict(ctx.stats)
     ev["coverage"]["regression_replays"] = {"executed": len(reg_files), "reproduced": len(reg_hits)}
@@ -191,7 +211,7 @@ def _main(args) -> int:
     os.makedirs(EVIDENCE, exist_ok=True)
     with open(os.path.join(EVIDENCE, prop + ".json"), "w") as f:
         json.dump(ev, f, indent=1, sort_keys=True)
-    print("%s: runs=%d evaluations=%d distinct_nontrivial=%d violations=%d known=%d wall=%.1fs" % (prop, len(done), ev["coverage"]["evaluations"], ev["coverage"]["distinct_nontrivial"], len(new), len(listed), wall))
+    print("%s: runs=%d evaluations=%d distinct_nontrivial=%d violations=%d known=%d wall=%.1fs" % (prop, len(done), ev["coverage"]["evaluations"], ev["coverage"]["distinct_nontrivial"], len(new), len(seen_known), wall))
     return 1 if (new or reg_hits) else 0
 
 
